@@ -1083,7 +1083,7 @@ pub fn run(prop: &'static str, tier: &str, shard: Option<&str>) -> Report {
     if want("closure-6") && (!tagged || thorough) {
         closure::<Big2048>(&mut rep, &mk(3 * PAGE, &small)); // cap 6
     }
-    if want("closure-12") && (!tagged || thorough) {
+    if want("closure-12") && !tagged {
         closure::<Big1024>(&mut rep, &mk(3 * PAGE, &small)); // cap 12
     }
     // Sweeps on native element types. Shard names: "native-<type>x<pages>",
@@ -1119,7 +1119,7 @@ pub fn run(prop: &'static str, tier: &str, shard: Option<&str>) -> Report {
                 let depth = if thorough { 2 } else { 3 };
                 let cfg = mk(size, &small);
                 sweep::<$t>(&mut rep, &cfg, &offs, &[0, 1, cap - 1, cap], if tagged { depth.min(2) } else { depth });
-                if thorough && nat_slice.0 == 0 {
+                if thorough && nat_slice.0 == 0 && !tagged {
                     let b: Vec<usize> = vec![0, 1, 2, cap / 2 - 1, cap / 2, cap - 3, cap - 2, cap - 1];
                     sweep::<$t>(&mut rep, &cfg, &b, &[0, 1, 2, cap - 2, cap - 1, cap], 3);
                 }
